@@ -121,7 +121,7 @@ func generate(prog *ssa.Program, db *ContractDB, fn *ssa.Function, fc *FuncContr
 		c.assume(c.valueInv(v, fv.Type(), st), false)
 	}
 	entry := st.clone()
-	env := &Env{c: c, vars: map[string]Val{}, st: entry, old: entry, pkg: f.contractPkg()}
+	env := &Env{c: c, vars: map[string]Val{}, st: entry, old: entry, pkg: f.contractPkg(), local: f.freeVarLookup}
 	for k, v := range f.params {
 		env.vars[k] = v
 	}
@@ -144,7 +144,7 @@ func generate(prog *ssa.Program, db *ContractDB, fn *ssa.Function, fc *FuncContr
 	} else {
 		cv := c.oblige("cover", shortFn(fn)+"#cover:return", ex.reach, tTrue, "")
 		cv.Cover = true
-		post := &Env{c: c, vars: map[string]Val{}, st: ex.st, old: entry, pkg: f.contractPkg(), res: f.resLookup}
+		post := &Env{c: c, vars: map[string]Val{}, st: ex.st, old: entry, pkg: f.contractPkg(), res: f.resLookup, local: f.freeVarLookup}
 		for k, v := range f.params {
 			post.vars[k] = v
 		}
@@ -195,6 +195,7 @@ func (f *Frame) frameObligations(fc *FuncContract, entry *State, ex *exitRec, en
 		args = append(args, f.params[prm.Name()])
 	}
 	menv := f.calleeEnv(p, args, entry, entry)
+	menv.local = f.freeVarLookup
 	targets, err := f.modTargets(p, menv)
 	if err != nil {
 		c.oblige("error", shortFn(f.fn)+"#frame", ex.reach, tFalse, "contract error: "+err.Error())
